@@ -219,7 +219,7 @@ def quiet():
         sys.stdout = old
 
 
-def traced_save(obj, target, mode, store, inject_at=None, exc="os"):
+def traced_save(obj, target, mode, store, inject_at=None, exc="os", save_arg=None, save_store=None):
     """run obj.save(target, mode, store) under a Tracer; returns (tracer, outcome, exception)
     outcome: "done" | "exists" (FileExistsError) | "fault" (the injected exception came out) |
              "error:<Type>" (any other exception)"""
@@ -231,7 +231,10 @@ def traced_save(obj, target, mode, store, inject_at=None, exc="os"):
         with quiet():
             tr.active = True
             try:
-                obj.save(target, mode=mode, store=store)
+                # `target` is the path the save resolves to (what the tracer watches); `save_arg` /
+                # `save_store` are what the caller actually passes (suffix-less path, Path, "auto")
+                obj.save(target if save_arg is None else save_arg, mode=mode,
+                         store=store if save_store is None else save_store)
             finally:
                 tr.active = False
     except INJECTED as e:
@@ -513,7 +516,11 @@ class Scenario:
               <base>/systmp/             tempfile.tempdir while saving (must be empty afterwards)
     """
 
-    def __init__(self, base, spec, store, mode, pre, old_spec=None):
+    def __init__(self, base, spec, store, mode, pre, old_spec=None, path_form="exact"):
+        # path_form: how the caller names the target — "exact" (str, resolved name), "noext" (zip store
+        # given a path without the .zip suffix: save appends it), "auto" (store="auto": inferred from the
+        # suffix), "pathlib" (a pathlib.Path).  The target the property speaks about is the resolved path.
+        self.path_form = path_form
         self.base = str(base)
         self.spec, self.store, self.mode, self.pre = spec, store, mode, pre
         self.old_spec = old_spec if old_spec is not None else [["a0_int", "int", 7, None], ["a1_nd_i4", "nd_i4", 3, None]]
@@ -587,7 +594,16 @@ class Scenario:
         old_tmp = tempfile.tempdir
         tempfile.tempdir = self.systmp
         try:
-            tr, out, err = traced_save(obj, self.target, self.mode, self.store, inject_at, exc)
+            save_arg, save_store = None, None
+            if self.path_form == "noext" and self.store == "zip":
+                save_arg = self.target[:-len(".zip")]
+            elif self.path_form == "auto":
+                save_store = "auto"
+            elif self.path_form == "pathlib":
+                import pathlib
+                save_arg = pathlib.Path(self.target)
+            tr, out, err = traced_save(obj, self.target, self.mode, self.store, inject_at, exc,
+                                       save_arg=save_arg, save_store=save_store)
         finally:
             tempfile.tempdir = old_tmp
         after_sib = snapshot(self.rundir, exclude=self.target)
@@ -633,7 +649,7 @@ def run_job(job, scratch):
     natural: the spec contains an attribute whose serialisation raises; one traced save
     single:  one faulted save (replay): job["inject_at"], job["exc"]"""
     sc = Scenario(os.path.join(scratch, "s%s" % job["id"]), job["spec"], job["store"], job["mode"], job["pre"],
-                  job.get("old_spec"))
+                  job.get("old_spec"), job.get("path_form", "exact"))
     out = {"id": job["id"]}
     try:
         if job["kind"] == "natural":
